@@ -3522,6 +3522,13 @@ fn codec_strategy_sequence(cx: &mut Run) {
                 cx.ev(format!("encode -> Err (zigzag is for signed input): {}", clip(&e)));
                 cx.cell(format!("{}/refused", base));
                 cx.nontrivial = vals.len() >= 2;
+            } else if cause == "@value_above_u32" {
+                // documented limit of the format (two selector bits per value: 1..4 bytes); a refusal
+                // is the right answer, silently truncated values were the defect (fix 20aaffa)
+                cx.ev(format!("encode -> Err (group varint holds values up to u32::MAX): {}", clip(&e)));
+                cx.cell(format!("{}/refused_above_u32", base));
+                cx.probe("group_varint_refused_value_above_u32");
+                cx.nontrivial = vals.len() >= 2;
             } else {
                 cx.violate("unexpected_error", &site, format!("encoding {} failed: {}", shown, clip(&e)));
             }
